@@ -449,7 +449,8 @@ def densify(coords: CoordList, resolution: float) -> CoordList:
     if len(coords) == 0:
         return []
 
-    d2 = resolution**2
+    # the square of a huge (still finite) resolution overflows: no edge is longer than that
+    d2 = resolution**2 if resolution < 1e150 else math.inf
 
     def short_enough(p1, p2):
         return ((p1[0] - p2[0]) ** 2 + (p1[1] - p2[1]) ** 2) < d2
